@@ -29,7 +29,7 @@ def evaluate(spec):
     t = cs.get("tcp") or {}
     labels = [tlsref.VERSION_NAMES[conn.v], "kind:" + s.kind + ("+etm" if conn.etm else ""), "alg:" + s.alg, "seg:" + t.get("mode", "rec"),
               "v6" if ep["v6"] else "v4", "hist:%s" % ("0" if not hist else "1" if len(hist) == 1 else "2-5" if len(hist) <= 5 else "6+")]
-    if cs.get("hs_frag"):
+    if cs.get("hs_frag") or cs.get("hs_cuts"):
         labels.append("hs-flight-fragmented")
     if cs.get("abbreviated"):
         labels.append("abbreviated")
